@@ -1,6 +1,7 @@
 """C20 Exhausted arena memory is handled gracefully."""
 import ctypes as C
 import json
+import os
 
 import numpy as np
 
@@ -11,7 +12,7 @@ from ..mjconst import E
 LEVEL = "fault_enumeration"
 RULE = ("fault plan over arena sizes: for a (model, state) the step is first run with ample memory to learn the arena it needs "
         "(maxuse_arena A, ncon, nefc, nisland); then the model's arena size is set to each s in {0, 256, 1K, ...} U a grid of "
-        "A*f for 40-120 fractions f in (0,1] U {A-8, A-64, A-512, A-4096, A, A+64}, a fresh mjData is made with that arena, the "
+        "A*f for 40-120 fractions f in (0,1] U {A-8, A-64, A-512, A-4096, A, A+64} U {need_k - 1, need_k : arena-allocation event k, traced through the repo hook on ample memory, that can be the first to fail}, a fresh mjData is made with that arena, the "
         "same state is loaded and forward/step are executed under the error trap with the shadow allocator (repo hook) on, "
         "on the rel flavour and an ASan subsample. Oracle per size: no crash/sanitizer report; outcome is success, a raised "
         "mjWARN_CONTACTFULL/CNSTRFULL warning, or a trapped mju_error; after success the truncated result must be "
@@ -100,9 +101,12 @@ def worker(c):
         P.count("model_rejected")
         return P.result()
     rng = np.random.default_rng(c["seed"])
-    opts = {"solver": str(rng.choice(common.SOLVERS)), "cone": str(rng.choice(common.CONES)), "jacobian": str(rng.choice(common.JACOBIANS))}
-    if rng.random() < 0.3:
-        opts["flags"] = ["noisland"]
+    if "opts" in c:
+        opts = dict(c["opts"])
+    else:
+        opts = {"solver": str(rng.choice(common.SOLVERS)), "cone": str(rng.choice(common.CONES)), "jacobian": str(rng.choice(common.JACOBIANS))}
+        if rng.random() < 0.3:
+            opts["flags"] = ["noisland"]
     common.apply_options(m, opts)
     INT = E.mjSTATE_INTEGRATION
     narena0 = m.n("narena")
@@ -116,6 +120,12 @@ def worker(c):
     except drv.MjError:
         P.count("ample_run_failed")
         return P.result()
+    if not (np.isfinite(state).all() and np.isfinite(d["qacc"]).all() and (d.s("ncon") == 0 or np.isfinite(d.contacts()["dist"]).all())):
+        # the pre-steps diverged (that is C30's subject): a non-finite state says nothing about arena handling
+        P.count("ample_state_not_finite")
+        d.free()
+        m.free()
+        return P.result()
     ref = dict(ncon=d.s("ncon"), nefc=d.s("nefc"), nisland=d.s("nisland"), A=int(d.s("maxuse_arena")), qacc=d["qacc"].copy())
     # arena actually needed by one forward from this state (fresh data => maxuse is that of a single call)
     d2 = m.make_data()
@@ -124,6 +134,45 @@ def worker(c):
     A = int(d2.s("maxuse_arena"))
     d2.free()
     d.free()
+    # per-event fault plan: trace every arena allocation of the exact call sequence used below on ample memory; event k succeeds
+    # iff narena >= need_k (= parena after it + stack in use at that moment), so narena = need_k - 1 makes it fail, and it is the
+    # FIRST event to fail when need_k exceeds every earlier need and every earlier transient stack peak
+    lib.vf_mem_trace.argtypes = [C.c_int]
+    lib.vf_mem_trace_get.argtypes = [C.POINTER(C.c_longlong), C.POINTER(C.c_longlong), C.c_int]
+    lib.vf_mem_install(0)
+    d3 = m.make_data()
+    lib.vf_mem_trace(1)
+    ev_sizes = []
+    try:
+        d3.set_state(state, INT)
+        d3.forward()
+        d3.step(1)
+        d3.forward()
+    except drv.MjError:
+        P.count("trace_run_failed")
+    lib.vf_mem_trace(0)
+    need = (C.c_longlong * 8192)()
+    byt = (C.c_longlong * 8192)()
+    peak = (C.c_longlong * 8192)()
+    lib.vf_mem_trace_peaks.argtypes = [C.POINTER(C.c_longlong), C.c_int]
+    nev = min(int(lib.vf_mem_trace_get(need, byt, 8192)), 8192)
+    lib.vf_mem_trace_peaks(peak, 8192)
+    lib.vf_mem_forget(d3.ptr)
+    d3.free()
+    # event k can be the first thing to fail iff it needs more than everything before it did (earlier arena allocations AND
+    # earlier transient stack peaks): need_k > peak_k; then narena = need_k - 1 fails exactly there
+    firsts = [int(need[k]) for k in range(nev) if need[k] > peak[k]]
+    if os.environ.get("VF_C20_DEBUG"):
+        print("C20-TRACE", name, opts, [(k, int(byt[k]), int(need[k]), int(peak[k])) for k in range(nev)][-40:], flush=True)
+    firsts = sorted(set(firsts))
+    cap = c.get("nevents", 60)
+    if len(firsts) > cap:
+        keep = set(firsts[-cap // 2:]) | set(int(x) for x in rng.choice(firsts[:-cap // 2], size=cap // 2, replace=False))
+        firsts = sorted(keep)
+    for t in firsts:
+        ev_sizes += [t - 1, t]
+    P.count("arena_events_traced", nev)
+    P.count("arena_events_made_first_to_fail", len(firsts))
     if ref["ncon"] == 0 and ref["nefc"] == 0:
         P.count("state_without_constraints")
     nsz = c["nsizes"]
@@ -131,7 +180,8 @@ def worker(c):
     # failures (individual arena allocations) live close to the top, so the grid is dense there
     fr = np.unique(np.concatenate([np.linspace(0.05, 0.7, nsz // 4), np.linspace(0.7, 1.02, nsz), 1 - 0.5 ** np.arange(2, 14),
                                    rng.uniform(0.6, 1.0, nsz // 2)]))
-    sizes = sorted(set([0, 256, 1024, 4096] + [int(A * f) for f in fr] + [max(0, A - k) for k in (8, 64, 512, 4096)] + [A, A + 64]))
+    sizes = sorted(set([0, 256, 1024, 4096] + [int(A * f) for f in fr] + [max(0, A - k) for k in (8, 64, 512, 4096)] + [A, A + 64] + [x for x in ev_sizes if x >= 0]))
+    ev_set = set(ev_sizes)
     st = (C.c_longlong * 12)()
     lib.vf_mem_install(0)
     for s in sizes:
@@ -197,6 +247,8 @@ def worker(c):
         P.case("%s|%s|%s|%s" % (name, json.dumps(opts, sort_keys=True), cls, outcome), nontrivial=ref["nefc"] > 0 or ref["ncon"] > 0,
                sample={"model": name, "options": opts, "narena": s, "needed": A, "outcome": outcome, "ample": {k: ref[k] for k in ("ncon", "nefc", "nisland")}})
         P.count("outcome:" + outcome)
+        if s in ev_set:
+            P.count("event-plan-outcome:" + outcome)
     P.count("sizes_tried", len(sizes))
     lib.vf_mem_uninstall()
     m.set_n("narena", narena0)
@@ -209,18 +261,31 @@ def run(ctx):
     cs = []
     for i in range(ctx.pick(40, 300)):
         k = i % 4
-        base = {"seed": int(rng.integers(0, 2 ** 31)), "mseed": int(rng.integers(0, 2 ** 31)), "presteps": int(rng.integers(5, 60)), "nsizes": ctx.pick(40, 120)}
+        base = {"seed": int(rng.integers(0, 2 ** 31)), "mseed": int(rng.integers(0, 2 ** 31)), "presteps": int(rng.integers(5, 60)), "nsizes": ctx.pick(40, 120), "nevents": ctx.pick(60, 400)}
         if k == 0:
             cs.append(dict(base, scene="piles", nclusters=int(rng.integers(2, 8)), per=int(rng.integers(3, 8))))
         elif k == 1:
             cs.append(dict(base, scene="cloud", n=int(rng.integers(20, 70))))
         else:
             cs.append(dict(base, scene="gen", profile=["rich", "contact"][k % 2]))
+    # stratified option grid on constraint-rich scenes with little or no collision work: there the transient stack peaks are small,
+    # so the later arena allocations of a step (efc_* arrays, the dual solvers' efc_Y*, island maps) can be the FIRST thing to fail;
+    # every path that allocates from the arena is selected at least once per run (solver x jacobian x {islands, noslip, diagexact})
+    grid = []
+    for sol in common.SOLVERS:
+        for jac in ("mjJAC_DENSE", "mjJAC_SPARSE"):
+            for extra in ({}, {"flags": ["noisland"]}, {"noslip": 3}, {"flags": ["diagexact"]}):
+                grid.append(dict({"solver": sol, "jacobian": jac}, **extra))
+    for j in range(ctx.pick(1, 6)):
+        for gi, o in enumerate(grid):
+            o = dict(o, cone=common.CONES[(gi + j) % 2])
+            cs.append({"scene": "gen", "profile": ["smooth", "conservative", "rich"][(gi + j) % 3], "opts": o, "seed": int(rng.integers(0, 2 ** 31)),
+                       "mseed": int(rng.integers(0, 2 ** 31)), "presteps": int(rng.integers(5, 40)), "nsizes": ctx.pick(10, 40), "nevents": ctx.pick(80, 400)})
     corp = [c for c in corpus.loadable() if (c["ncon"] >= 2 or c["nefc"] >= 4) and c["nv"] < 400 and c["nflex"] == 0]
     idx = rng.permutation(len(corp))
     for i in idx[: ctx.pick(20, len(corp))]:
         c = corp[int(i)]
-        cs.append({"scene": "corpus", "path": c["path"], "seed": int(rng.integers(0, 2 ** 31)), "presteps": int(rng.integers(5, 60)), "nsizes": ctx.pick(40, 120)})
+        cs.append({"scene": "corpus", "path": c["path"], "seed": int(rng.integers(0, 2 ** 31)), "presteps": int(rng.integers(5, 60)), "nsizes": ctx.pick(40, 120), "nevents": ctx.pick(60, 400)})
     res = par.run("vf.props.c20", "worker", cs, nproc=12, timeout=ctx.pick(600, 1800), chunk=1)
     acs = [dict(c, flavour="asan", nsizes=ctx.pick(12, 40)) for c in cs[: ctx.pick(6, 60)]]
     ares = par.run("vf.props.c20", "worker", acs, nproc=8, timeout=ctx.pick(900, 2400), asan=True, chunk=1)
